@@ -1332,3 +1332,137 @@ func firstSucc(b *ssa.BasicBlock) *ssa.BasicBlock {
 	}
 	return b.Succs[0]
 }
+
+// ---------------------------------------------------------------------------
+// R-COUNTER-NUMERIC (C04, C10): the image counter restored on Open must exceed the NUMBER of every
+// existing media part.  Part names order lexicographically ("image9" > "image10"), so a restored
+// value that depends on an ordered comparison of names — rather than of the parsed numbers — is
+// too small as soon as a package holds ten images, and the next image overwrites image10.
+// ---------------------------------------------------------------------------
+
+func ruleCounterNumeric(r *Run) {
+	p := r.P
+	root := r.mustFunc(pkgDoc, "openFromZipReader")
+	if root == nil {
+		return
+	}
+	sl := newSlicer(p)
+	n := 0
+	for _, fn := range sortedFuncs(p.staticReach(root)) {
+		allInstrs(fn, func(in ssa.Instruction) {
+			st, ok := in.(*ssa.Store)
+			if !ok {
+				return
+			}
+			fv, _ := fieldOfAddr(st.Addr)
+			if !fieldIs(p, fv, pkgDoc, "Document", "nextImageID") {
+				return
+			}
+			if _, isConst := st.Val.(*ssa.Const); isConst {
+				return
+			}
+			n++
+			res := sl.SliceWithControl(st.Val, st)
+			bad := ""
+			intCmp := false
+			for v := range res.Vals {
+				bo, ok := v.(*ssa.BinOp)
+				if !ok {
+					continue
+				}
+				switch bo.Op {
+				case token.LSS, token.LEQ, token.GTR, token.GEQ:
+					if isStringType(bo.X.Type()) {
+						bad = p.pos(bo.Pos())
+					} else {
+						intCmp = true
+					}
+				}
+			}
+			okc := bad == "" && intCmp
+			why := "the maximum is taken over parsed numbers"
+			if bad != "" {
+				why = "it depends on an ordered comparison of part NAMES (" + bad + "): image9 sorts after image10, so with ten or more images the counter restarts below an existing number and a new image overwrites an existing media part"
+			} else if !intCmp {
+				why = "no numeric maximum over the existing media parts was found in its computation"
+			}
+			r.Check("counter-numeric", shortName(fn)+":nextImageID", st.Pos(), okc, "the restored image counter: "+why)
+		})
+	}
+	r.Min("image_counter_restores", n, 1)
+}
+
+// ---------------------------------------------------------------------------
+// R-SOFTBREAK (C19): in the inline renderer every Text node — including the empty one goldmark
+// emits for a soft break that follows an inline span — reaches the soft-break test; an early
+// `continue` before it glues the words on both sides of the line break together.
+// ---------------------------------------------------------------------------
+
+func ruleSoftBreak(r *Run) {
+	p := r.P
+	fn := r.mustFunc(pkgMd, "(*WordRenderer).renderInlineContent")
+	if fn == nil {
+		return
+	}
+	found := false
+	allInstrs(fn, func(in ssa.Instruction) {
+		ta, ok := in.(*ssa.TypeAssert)
+		if !ok || !ta.CommaOk || !typeIs(ta.AssertedType, gmAst, "Text") {
+			return
+		}
+		var okIf *ssa.If
+		if ta.Referrers() != nil {
+			for _, u := range *ta.Referrers() {
+				if ex, ok := u.(*ssa.Extract); ok && ex.Index == 1 && ex.Referrers() != nil {
+					for _, u2 := range *ex.Referrers() {
+						if x, ok := u2.(*ssa.If); ok {
+							okIf = x
+						}
+					}
+				}
+			}
+		}
+		if okIf == nil {
+			return
+		}
+		found = true
+		entry := okIf.Block().Succs[0]
+		// blocks that call SoftLineBreak on the node
+		cut := map[*ssa.BasicBlock]bool{}
+		allInstrs(fn, func(in2 ssa.Instruction) {
+			if c, ok := in2.(ssa.CallInstruction); ok && strings.HasSuffix(calleeName(c), ".SoftLineBreak") {
+				cut[c.Block()] = true
+			}
+		})
+		var loop *natLoop
+		for _, l := range naturalLoops(fn) {
+			if l.Body[okIf.Block()] && (loop == nil || len(l.Body) < len(loop.Body)) {
+				loop = l
+			}
+		}
+		okc := len(cut) > 0
+		why := "no call of SoftLineBreak() in the function"
+		if okc && loop != nil && !cut[entry] {
+			// can the next iteration (or the function exit) be reached from the Text case without it?
+			reach := reachableBlocks(entry, cut)
+			escaped := false
+			for b := range reach {
+				for _, s := range b.Succs {
+					if s == loop.Header || !loop.Body[s] {
+						escaped = true
+					}
+				}
+				// the step block `child = child.NextSibling()` leads to the header
+			}
+			if escaped {
+				okc, why = false, "some path through the *ast.Text case leaves it before SoftLineBreak() is consulted"
+			}
+		}
+		r.Check("softbreak", shortName(fn), ta.Pos(), okc,
+			fmt.Sprintf("%s: every Text node must reach the soft-break test%s", shortName(fn), map[bool]string{true: "", false: " — " + why + ": the empty Text node that carries a soft break after **bold**, `code` or a link is skipped and the two lines are joined without a space"}[okc]))
+	})
+	if !found {
+		r.Unresolved("(*WordRenderer).renderInlineContent: case *ast.Text")
+	}
+	_ = p
+}
